@@ -12,7 +12,7 @@ TL = "<naive::time::NaiveTime as traits::Timelike>::"
 def run(chk, tier):
     P = Prog("default")
     chk.configs.add("default")
-    for r in (r_boxes, r_delegates, r_with, r_hms, r_offset_copy, r_sub, r_operators, r_absint):
+    for r in (r_boxes, r_delegates, r_with, r_hms, r_offset_copy, r_sub, r_operators, r_datetime_core, r_absint):
         chk.guarded(r, P, tier)
     chk.assume("the leap-second stepping rules of overflowing_add_signed / signed_duration_since (which branch applies to which operands) are numerical and not decided")
     return {
@@ -203,3 +203,21 @@ def r_operators(chk, P, tier):
     cb = sorted(x for x in consts_in_fn(P, b) if isinstance(x, int) and not isinstance(x, bool))
     chk.expect(ca == cb and ca, "Duration pair constants", "Add<Duration> reduces with constants %s, Sub<Duration> with %s" % (ca, cb), loc=P.loc(b))
     chk.expect(found == len(TIME_OPERATORS), "all operators present", "only %d of %d operator impls found" % (found, len(TIME_OPERATORS)))
+
+
+def r_datetime_core(chk, P, tier):
+    """date-times follow the time-of-day rules: NaiveDateTime::checked_add/sub_signed produce a value only through NaiveTime::overflowing_add/sub_signed
+    (no shortcut that moves the date alone), and the provided Timelike::num_seconds_from_midnight is h*3600 + m*60 + s (no sub-second part)"""
+    chk.rule("DOM.datetime_core", "every Some of NaiveDateTime::checked_add_signed / checked_sub_signed lies behind NaiveTime::overflowing_add_signed / overflowing_sub_signed; "
+                                  "Timelike::num_seconds_from_midnight reads hour, minute, second only", floor=3)
+    for fn, core in (("naive::datetime::NaiveDateTime::checked_add_signed", NT + "::overflowing_add_signed"), ("naive::datetime::NaiveDateTime::checked_sub_signed", NT + "::overflowing_sub_signed")):
+        paths = [p_ for p_ in Sym(P, fn).paths() if p_.end[0] == "return"]
+        somes = [p_ for p_ in paths if result_variant(p_.ret)[0] not in ("None",) and not (is_call(p_.ret) and "from_residual" in str(p_.ret[1]))]
+        if not somes:
+            raise AnchorLost(fn + ": no value-returning path")
+        bad = [p_ for p_ in somes if not any(c[1] == core for c in p_.calls)]
+        chk.expect(not bad, fn.split("::")[-1], "%s returns a value on %d of %d paths without NaiveTime's %s (the leap-second rules live there)" % (fn, len(bad), len(somes), core.split("::")[-1]), loc=P.loc(fn))
+    from rules import callees
+    fn = "traits::Timelike::num_seconds_from_midnight"
+    cs = {c.split("::")[-1] for c in callees(P, fn)}
+    chk.expect(cs == {"hour", "minute", "second"}, "num_seconds_from_midnight", "the provided Timelike::num_seconds_from_midnight reads %s (expected hour, minute, second)" % sorted(cs), loc=P.loc(fn))
